@@ -33,6 +33,14 @@ impl<'a> G<'a> {
     pub fn new(data: &'a [u8]) -> G<'a> { G { u: Src::new(data), out: String::new(), marks: vec![], dels: vec![], anchors: vec![], depth: 0, feats: vec![], in_macro: 0, str_regions: vec![], last_int: false, max_depth: 0, open_parens: 0, trunc_points: vec![] } }
     fn d_inc(&mut self) { self.depth += 1; if self.depth > self.max_depth { self.max_depth = self.depth; } }
     fn p(&mut self, s: &str) { self.out.push_str(s); }
+    // a macro keyword in a random letter case (keywords are case-insensitive)
+    fn pk(&mut self, s: &str) {
+        match self.u.below(8) {
+            6 => { let u = s.to_ascii_uppercase(); self.out.push_str(&u); }
+            7 => { let m: String = s.chars().enumerate().map(|(i, c)| if i % 2 == 0 { c.to_ascii_uppercase() } else { c }).collect(); self.out.push_str(&m); }
+            _ => self.out.push_str(s),
+        }
+    }
     fn pick<'b>(&mut self, xs: &[&'b str]) -> &'b str { xs[self.u.below(xs.len())] }
     fn feat(&mut self, f: &'static str) { if !self.feats.contains(&f) { self.feats.push(f); } }
     fn mark(&mut self, s: &str, kind: MK) {
@@ -201,8 +209,8 @@ impl<'a> G<'a> {
         self.feat("builtin");
         self.d_inc();
         match if self.depth > 5 { 0 } else { self.u.below(12) } {
-            0 => { self.p("%eval"); self.ows(); self.del_mark("(", "LPAREN", "MissingExpectedLParen", false); self.ows(); self.eval_expr(false, false); self.ows_after_expr(); self.mark(")", MK::Delim("RPAREN", false)); }
-            1 => { self.feat("sysevalf"); self.p("%sysevalf"); self.ows(); self.del_mark("(", "LPAREN", "MissingExpectedLParen", false); self.ows(); self.eval_expr(true, true); if self.u.coin(1, 3) { self.mark(",", MK::Delim("COMMA", false)); self.ows(); self.p("boolean"); } self.mark(")", MK::Delim("RPAREN", false)); }
+            0 => { self.pk("%eval"); self.ows(); self.del_mark("(", "LPAREN", "MissingExpectedLParen", false); self.ows(); self.eval_expr(false, false); self.ows_after_expr(); self.mark(")", MK::Delim("RPAREN", false)); }
+            1 => { self.feat("sysevalf"); self.pk("%sysevalf"); self.ows(); self.del_mark("(", "LPAREN", "MissingExpectedLParen", false); self.ows(); self.eval_expr(true, true); if self.u.coin(1, 3) { self.mark(",", MK::Delim("COMMA", false)); self.ows(); self.p("boolean"); } self.mark(")", MK::Delim("RPAREN", false)); }
             2 => { self.feat("scan"); let nm = self.pick(&["%scan", "%qscan", "%SCAN", "%kscan", "%qkscan", "%QKScan"]); self.p(nm); self.ows(); self.del_mark("(", "LPAREN", "MissingExpectedLParen", false); self.ows(); self.simple_value(); let close_anchor_needed = self.out.len(); let _ = close_anchor_needed; let di = self.dels.len(); self.del_mark(",", "COMMA", "MissingExpectedComma", false); self.ows(); self.eval_expr(false, true); if self.u.coin(1, 2) { self.mark(",", MK::Delim("COMMA", false)); self.ows(); self.p("|"); self.mark("(", MK::Masked); self.p(" "); self.mark(")", MK::Masked); self.dels.remove(di); } else { let a = self.anchor(); self.dels[di].at_mark = Some(a); } self.mark(")", MK::Delim("RPAREN", false)); }
             3 => { self.feat("substr"); let nm = self.pick(&["%substr", "%qsubstr", "%ksubstr", "%qksubstr", "%SUBSTR", "%QKsubstr"]); self.p(nm); self.ows(); self.del_mark("(", "LPAREN", "MissingExpectedLParen", false); self.ows(); self.simple_value(); let di = self.dels.len(); self.del_mark(",", "COMMA", "MissingExpectedComma", false); self.ows(); self.eval_expr(false, true); if self.u.coin(1, 2) { self.mark(",", MK::Delim("COMMA", false)); self.ows(); self.eval_expr(false, true); self.dels.remove(di); } else { let a = self.anchor(); self.dels[di].at_mark = Some(a); } self.mark(")", MK::Delim("RPAREN", false)); }
             4 => { self.feat("one-arg-masking"); let nm = self.pick(&["%upcase", "%length", "%index", "%quote", "%bquote", "%nrbquote", "%superq", "%unquote", "%symexist", "%sysget", "%qupcase", "%qlowcase", "%nrquote", "%kupcase", "%klength", "%kindex", "%qkupcase", "%qklowcase", "%sysmexecname", "%sysprod", "%symglobl", "%symlocal", "%sysmacexec", "%sysmacexist", "%UPCASE", "%Length"]); self.p(nm); self.ows(); self.del_mark("(", "LPAREN", "MissingExpectedLParen", false); self.ows(); self.simple_value(); if self.u.coin(1, 2) { self.mark(",", MK::Masked); self.p("t"); } self.mark(")", MK::Delim("RPAREN", false)); }
@@ -301,61 +309,61 @@ impl<'a> G<'a> {
         }
     }
     fn name_expr(&mut self) { match self.u.below(6) { 5 => { self.feat("name-expr-call"); self.p("%"); let m = self.pick(CALLNAMES); self.p(m); self.p("(a)"); if self.u.coin(1, 2) { self.p("_s"); } } 0 | 1 => { let v = self.pick(MVARS); self.p(v); } 2 => { let v = self.pick(MVARS); self.p(v); self.mvar(false); } 3 => { self.mvar(false); } _ => { let v = self.pick(MVARS); self.p(v); self.p("_"); self.p("&i."); self.p("x"); } } }
-    fn let_stmt(&mut self) { self.feat("let"); self.p("%let"); self.rws(); self.name_expr(); self.ows(); self.del_mark("=", "ASSIGN", "MissingExpectedAssign", false); self.ows(); self.text_expr(); self.mark(";", MK::Delim("SEMI", false)); }
-    fn put_stmt(&mut self) { self.feat("put"); self.p("%put"); self.rws(); self.text_expr(); self.mark(";", MK::Delim("SEMI", false)); }
+    fn let_stmt(&mut self) { self.feat("let"); self.pk("%let"); self.rws(); self.name_expr(); self.ows(); self.del_mark("=", "ASSIGN", "MissingExpectedAssign", false); self.ows(); self.text_expr(); self.mark(";", MK::Delim("SEMI", false)); }
+    fn put_stmt(&mut self) { self.feat("put"); self.pk("%put"); self.rws(); self.text_expr(); self.mark(";", MK::Delim("SEMI", false)); }
     fn comment_stmt(&mut self) { self.feat("comment-stmt"); match self.u.below(4) { 0 => self.p("* a comment, with 'stuff;"), 1 => self.p("%* macro comment 'with ; quoted' \"and ;\";"), 2 => self.p("/* block ; comment */"), _ => self.p("*;") } }
     fn datalines_block(&mut self) { if self.in_macro > 0 { return self.open_stmt(); } self.feat("datalines"); if !self.out.trim_end_matches(|c: char| c.is_whitespace()).ends_with(';') && !self.out.is_empty() { self.p(";"); } match self.u.below(4) { 0 => self.p("datalines;\n1 2 3\nabc def\n;"), 1 => self.p("cards ;\n;"), 2 => self.p("DATALINES4;\na;b;;;c\n'x\n;;;;"), _ => self.p("lines;\n%notmacro &x /* not comment\n;") } }
     fn if_stmt(&mut self) {
-        self.feat("if"); self.p("%if"); self.rws(); self.eval_expr(false, false); self.rgap_after_expr(); self.p("%then"); self.rws();
+        self.feat("if"); self.pk("%if"); self.rws(); self.eval_expr(false, false); self.rgap_after_expr(); self.pk("%then"); self.rws();
         if self.u.coin(1, 2) { self.do_block(); } else { self.simple_macro_stmt(); }
-        if self.u.coin(1, 3) { self.feat("else"); self.plain_ws(); self.p("%else"); self.rws(); match self.u.below(5) { 0 | 1 => self.do_block(), 2 if self.depth < 4 => { self.feat("else-if"); self.d_inc(); self.if_stmt(); self.depth -= 1; } _ => self.simple_macro_stmt() } }
+        if self.u.coin(1, 3) { self.feat("else"); self.plain_ws(); self.pk("%else"); self.rws(); match self.u.below(5) { 0 | 1 => self.do_block(), 2 if self.depth < 4 => { self.feat("else-if"); self.d_inc(); self.if_stmt(); self.depth -= 1; } _ => self.simple_macro_stmt() } }
     }
     fn simple_macro_stmt(&mut self) { match self.u.below(3) { 0 => self.let_stmt(), 1 => self.put_stmt(), _ => self.open_stmt() } }
     fn do_block(&mut self) {
-        self.feat("do"); self.p("%do");
+        self.feat("do"); self.pk("%do");
         match self.u.below(5) {
             0 | 1 => { self.ows(); self.mark(";", MK::Delim("SEMI", false)); }
-            2 => { self.feat("do-iter"); self.rws(); self.name_expr(); self.ows(); self.del_mark("=", "ASSIGN", "MissingExpectedAssign", false); self.ows(); self.eval_expr(false, false); self.rgap_after_expr(); self.p("%to"); self.rws(); self.eval_expr(false, false); if self.u.coin(1, 2) { self.rgap_after_expr(); self.p("%by"); self.rws(); self.eval_expr(false, false); } self.gap_after_expr(); self.mark(";", MK::Delim("SEMI", false)); }
-            3 => { self.feat("do-while"); self.rws(); self.p("%while"); self.ows(); self.del_mark("(", "LPAREN", "MissingExpectedLParen", false); self.ows(); self.eval_expr(false, false); self.ows_after_expr(); self.mark(")", MK::Delim("RPAREN", false)); self.ows(); self.del_mark(";", "SEMI", "MissingExpectedSemiOrEOF", false); }
-            _ => { self.feat("do-until"); self.rws(); self.p("%until"); self.ows(); self.del_mark("(", "LPAREN", "MissingExpectedLParen", false); self.ows(); self.eval_expr(false, false); self.ows_after_expr(); self.mark(")", MK::Delim("RPAREN", false)); self.ows(); self.del_mark(";", "SEMI", "MissingExpectedSemiOrEOF", false); }
+            2 => { self.feat("do-iter"); self.rws(); self.name_expr(); self.ows(); self.del_mark("=", "ASSIGN", "MissingExpectedAssign", false); self.ows(); self.eval_expr(false, false); self.rgap_after_expr(); self.pk("%to"); self.rws(); self.eval_expr(false, false); if self.u.coin(1, 2) { self.rgap_after_expr(); self.pk("%by"); self.rws(); self.eval_expr(false, false); } self.gap_after_expr(); self.mark(";", MK::Delim("SEMI", false)); }
+            3 => { self.feat("do-while"); self.rws(); self.pk("%while"); self.ows(); self.del_mark("(", "LPAREN", "MissingExpectedLParen", false); self.ows(); self.eval_expr(false, false); self.ows_after_expr(); self.mark(")", MK::Delim("RPAREN", false)); self.ows(); self.del_mark(";", "SEMI", "MissingExpectedSemiOrEOF", false); }
+            _ => { self.feat("do-until"); self.rws(); self.pk("%until"); self.ows(); self.del_mark("(", "LPAREN", "MissingExpectedLParen", false); self.ows(); self.eval_expr(false, false); self.ows_after_expr(); self.mark(")", MK::Delim("RPAREN", false)); self.ows(); self.del_mark(";", "SEMI", "MissingExpectedSemiOrEOF", false); }
         }
         self.body();
-        self.p("%end"); self.ows(); self.del_mark(";", "SEMI", "MissingExpectedSemiOrEOF", false);
+        self.pk("%end"); self.ows(); self.del_mark(";", "SEMI", "MissingExpectedSemiOrEOF", false);
     }
     fn macro_def(&mut self) {
-        self.feat("macro-def"); self.p("%macro"); self.rws(); let nm = self.pick(MNAMES); self.p(nm);
+        self.feat("macro-def"); self.pk("%macro"); self.rws(); let nm = self.pick(MNAMES); self.p(nm);
         if self.u.coin(2, 3) { self.ows(); self.mark("(", MK::Delim("LPAREN", false)); let n = self.u.below(4); for i in 0..n { if i > 0 { self.mark(",", MK::Delim("COMMA", false)); } self.ows(); let a = self.pick(&["p1", "arg", "_k", "ds"]); self.p(a); self.ows(); if self.u.coin(1, 2) { self.feat("def-default"); self.mark("=", MK::Delim("ASSIGN", false)); self.ows(); if self.u.coin(2, 3) { self.arg_value(true); } } } if n == 0 { self.ows(); } self.mark(")", MK::Delim("RPAREN", false)); }
         if self.u.coin(1, 4) { self.ows(); self.p("/ des='x' minoperator"); }
         self.ows(); self.mark(";", MK::Delim("SEMI", false));
         self.in_macro += 1; self.body(); self.in_macro -= 1;
-        self.p("%mend"); if self.u.coin(1, 2) { self.rws(); self.p(nm); } self.ows(); self.mark(";", MK::Delim("SEMI", false));
+        self.pk("%mend"); if self.u.coin(1, 2) { self.rws(); self.p(nm); } self.ows(); self.mark(";", MK::Delim("SEMI", false));
     }
     fn call_stmt(&mut self) { self.user_call(0); if !self.out.ends_with(')') { /* argless */ } self.ows_no_paren(); self.p(";"); }
     fn ows_no_paren(&mut self) { if self.u.coin(1, 3) { self.p(" "); } }
     fn local_global(&mut self) { self.feat("local-global"); let k = self.pick(&["%local", "%global", "%LOCAL"]); self.p(k); self.rws(); if self.u.coin(1, 4) { self.p("/ readonly "); self.name_expr(); self.ows(); self.p("="); self.ows(); self.text_expr(); } else { let n = 1 + self.u.below(3); for i in 0..n { if i > 0 { self.p(" "); } self.name_expr(); } } self.mark(";", MK::Delim("SEMI", false)); }
-    fn goto_label(&mut self) { self.feat("goto-label"); if self.u.coin(1, 2) { self.p("%goto"); self.rws(); if self.u.coin(1, 4) { self.mvar(false); } else { let l = self.pick(&["done", "lbl1", "é_l"]); self.p(l); } self.ows(); self.p(";"); } else { if !self.out.is_empty() && !self.out.ends_with([';', '\n', ' ']) { self.p(" "); } let l = self.pick(&["%done", "%lbl1", "%next_step"]); self.p(l); self.ows(); self.p(":"); self.plain_ws(); self.simple_macro_stmt(); } }
+    fn goto_label(&mut self) { self.feat("goto-label"); if self.u.coin(1, 2) { self.pk("%goto"); self.rws(); if self.u.coin(1, 4) { self.mvar(false); } else { let l = self.pick(&["done", "lbl1", "é_l"]); self.p(l); } self.ows(); self.p(";"); } else { if !self.out.is_empty() && !self.out.ends_with([';', '\n', ' ']) { self.p(" "); } let l = self.pick(&["%done", "%lbl1", "%next_step"]); self.p(l); self.ows(); self.p(":"); self.plain_ws(); self.simple_macro_stmt(); } }
     fn misc_stat(&mut self) {
         self.feat("misc-stat");
         match self.u.below(8) {
-            0 => { self.p("%return"); self.ows(); self.del_mark(";", "SEMI", "MissingExpectedSemiOrEOF", false); }
-            1 => { self.p("%symdel"); self.rws(); self.name_expr(); self.p(" / nowarn"); self.ows(); self.p(";"); }
-            2 => { self.p("%sysexec"); self.rws(); self.p("ls -l /tmp"); self.p(";"); }
-            3 => { self.p("%syscall"); self.rws(); self.p("ranuni"); self.ows(); self.del_mark("(", "LPAREN", "MissingExpectedLParen", false); self.mvar(true); self.mark(",", MK::Delim("COMMA", false)); self.ows(); self.mvar(true); self.mark(")", MK::Delim("RPAREN", false)); self.ows(); self.del_mark(";", "SEMI", "MissingExpectedSemiOrEOF", false); }
-            4 => { self.p("%include"); self.rws(); self.p("'file.sas'"); self.ows(); self.p(";"); }
+            0 => { self.pk("%return"); self.ows(); self.del_mark(";", "SEMI", "MissingExpectedSemiOrEOF", false); }
+            1 => { self.pk("%symdel"); self.rws(); self.name_expr(); self.p(" / nowarn"); self.ows(); self.p(";"); }
+            2 => { self.pk("%sysexec"); self.rws(); self.p("ls -l /tmp"); self.p(";"); }
+            3 => { self.pk("%syscall"); self.rws(); let f = self.pick(&["ranuni", "streaminit", "symput", "set"]); self.p(f); self.ows(); self.del_mark("(", "LPAREN", "MissingExpectedLParen", false); self.ows(); let n = 1 + self.u.below(3); for i in 0..n { if i > 0 { self.mark(",", MK::Delim("COMMA", false)); self.ows(); } match self.u.below(5) { 0 | 1 => self.mvar(true), 2 => { let w = self.pick(&["seed", "x", "abc"]); self.p(w); } 3 => { let w = self.pick(&["1", "42"]); self.mark(w, MK::IntOperand); } _ => self.p("'a,b'") } } self.mark(")", MK::Delim("RPAREN", false)); self.ows(); self.del_mark(";", "SEMI", "MissingExpectedSemiOrEOF", false); }
+            4 => { self.pk("%include"); self.rws(); self.p("'file.sas'"); self.ows(); self.p(";"); }
             5 => { match self.u.below(10) {
-                    0 => { self.p("%abort"); if self.u.coin(1, 2) { let o = self.pick(&[" cancel", " abend 4", " return"]); self.p(o); } self.ows(); self.p(";"); }
-                    1 => { self.p("%syslput"); self.rws(); self.name_expr(); self.p("="); self.mvar(true); self.p(";"); }
+                    0 => { self.pk("%abort"); if self.u.coin(1, 2) { let o = self.pick(&[" cancel", " abend 4", " return"]); self.p(o); } self.ows(); self.p(";"); }
+                    1 => { self.pk("%syslput"); self.rws(); self.name_expr(); self.p("="); self.mvar(true); self.p(";"); }
                     2 => { let k = self.pick(&["%include", "%inc", "%INCLUDE"]); self.p(k); self.rws(); let f = self.pick(&["'f.sas'", "\"f&v..sas\"", "fref", "fref(member)"]); self.p(f); if self.u.coin(1, 3) { self.p(" / source2"); } self.ows(); self.p(";"); }
                     3 => { self.p("%window w color=red #1 @2 \"t\" "); self.mvar(true); self.p(";"); }
                     4 => { self.p("%display w"); self.ows(); self.p(";"); }
-                    5 => { self.p("%input"); self.rws(); self.name_expr(); self.p(" b"); self.ows(); self.p(";"); }
-                    6 => { self.p("%sysmacdelete"); self.rws(); let m = self.pick(MNAMES); self.p(m); self.ows(); self.p("/"); if self.u.coin(1, 2) { self.p(" nowarn"); } self.ows(); self.p(";"); /* the lexer documents the '/' of %sysmacdelete as mandatory (expect_macro_name_then_opts) */ }
+                    5 => { self.pk("%input"); self.rws(); self.name_expr(); self.p(" b"); self.ows(); self.p(";"); }
+                    6 => { self.pk("%sysmacdelete"); self.rws(); let m = self.pick(MNAMES); self.p(m); self.ows(); self.p("/"); if self.u.coin(1, 2) { self.p(" nowarn"); } self.ows(); self.p(";"); /* the lexer documents the '/' of %sysmacdelete as mandatory (expect_macro_name_then_opts) */ }
                     7 => { let k = self.pick(&["%sysmstoreclear", "%list", "%run"]); self.p(k); self.ows(); self.p(";"); }
-                    8 => { self.p("%sysexec"); self.rws(); self.p("echo "); if self.u.coin(1, 2) { self.str_call(); } self.p(" done"); self.p(";"); }
-                    _ => { self.p("%abort"); self.ows(); self.p(";"); }
+                    8 => { self.pk("%sysexec"); self.rws(); self.p("echo "); if self.u.coin(1, 2) { self.str_call(); } self.p(" done"); self.p(";"); }
+                    _ => { self.pk("%abort"); self.ows(); self.p(";"); }
                 } }
-            6 => { self.p("%copy"); self.rws(); let nm = self.pick(MNAMES); self.p(nm); self.ows(); self.del_mark("/", "FSLASH", "MissingExpectedFSlash", false); self.ows(); if self.u.coin(2, 3) { let o = self.pick(&["source", "SOURCE", "source outfile='f.sas'", "lib=work source"]); self.p(o); self.ows(); } self.p(";"); }
-            _ => { self.p("%sysrput"); self.rws(); self.name_expr(); self.p("="); self.mvar(true); self.p(";"); }
+            6 => { self.pk("%copy"); self.rws(); let nm = self.pick(MNAMES); self.p(nm); self.ows(); self.del_mark("/", "FSLASH", "MissingExpectedFSlash", false); self.ows(); if self.u.coin(2, 3) { let o = self.pick(&["source", "SOURCE", "source outfile='f.sas'", "lib=work source"]); self.p(o); self.ows(); } self.p(";"); }
+            _ => { self.pk("%sysrput"); self.rws(); self.name_expr(); self.p("="); self.mvar(true); self.p(";"); }
         }
     }
 }
